@@ -638,7 +638,8 @@ fn pass1(fs_: &FileSpec, text: &str, norms: &mut Vec<String>) -> String {
                             syn::Expr::ForLoop(_) | syn::Expr::While(_) | syn::Expr::Loop(_) | syn::Expr::If(_) | syn::Expr::Match(_) | syn::Expr::Block(_)
                         );
                         if !blocklike {
-                            die(&format!("UNSUPPORTED {}: N2 side condition: block in fn {} ends in a tail expression", ctx, f.name));
+                            FORCE_DEMOTE.with(|fd| fd.borrow_mut().push(format!("{}|{}|{}", fs_.file, st.selector, f.name)));
+                            continue;
                         }
                     }
                     let decl_off = locals.iter().map(|(_, _, i)| src.start(shape.stmts[*i])).min().unwrap();
@@ -663,7 +664,8 @@ fn pass1(fs_: &FileSpec, text: &str, norms: &mut Vec<String>) -> String {
                     let mut bad = false;
                     scan(toks, &mut bad, false);
                     if bad {
-                        die(&format!("UNSUPPORTED {}: N2 side condition: early exit after Punctuator declaration in fn {}", ctx, f.name));
+                        FORCE_DEMOTE.with(|fd| fd.borrow_mut().push(format!("{}|{}|{}", fs_.file, st.selector, f.name)));
+                        continue;
                     }
                     let mut t = String::new();
                     for (name, _, _) in &locals {
@@ -854,7 +856,7 @@ fn pass2(fs_: &FileSpec, text1: &str, is_root: bool, map: &mut Vec<BTreeMap<Stri
             let forced = FORCE_DEMOTE.with(|fd| fd.borrow().contains(&forced_key));
             let res = std::panic::catch_unwind(std::panic::AssertUnwindSafe(|| {
                 if forced {
-                    fail(&format!("UNSUPPORTED {}: Verus rejected a construct in this function", cctx));
+                    fail(&format!("UNSUPPORTED {}: Verus rejected a construct in this function, or the N2 side condition (no early exit after a Punctuator declaration) does not hold", cctx));
                 }
             for d in &stanza.dirs {
                 let k = d.kind.as_str();
